@@ -107,7 +107,7 @@ def _portfolio(s, timeout_ms):
     def left():
         return max(200, int(budget - (time.time() - t_start) * 1000))
     # 1 default, short
-    s.set("timeout", max(500, timeout_ms // 4))
+    s.set("timeout", max(500, min(1500, timeout_ms // 4)))
     r = str(s.check())
     if r in ("sat", "unsat"):
         PORTFOLIO_STATS["default"] = PORTFOLIO_STATS.get("default", 0) + 1
